@@ -434,9 +434,20 @@ def x8(run: Run, prog: Program):
         if C is None:
             raise AnalysisError(f"class {cname} vanished")
         for mname, m in sorted(C.methods.items()):
-            if not m.params:
+            if not m.params or m.kind == "static" or \
+                    any(ast.unparse(d) == "staticmethod" for d in m.node.decorator_list):
                 continue
             sn = m.params[0]
+            # a fill loop factored into a private helper is analysed in place
+            import copy as _copy
+            from .idioms import inline_simple_helpers
+
+            def _res(hn, _C=C):
+                h = prog.lookup(_C, hn)
+                return h.node if h is not None and hn.startswith("_") and \
+                    not hn.startswith("__") else None
+            m = _copy.copy(m)
+            m.node = inline_simple_helpers(m.node, _res)
             loops = [l for l in ast.walk(m.node) if isinstance(l, ast.For)
                      and re.search(r"\.es\b", ast.unparse(l.iter))
                      and isinstance(l.target, ast.Name)]
